@@ -104,6 +104,14 @@ theorem history_inv :
     runHistory s cs = .ok s' → Inv s' (specHistory w cs) :=
   @Bd.history_inv
 
+/-- a rename reported together with an edit is one of the changes `history_inv` quantifies over (`Change.ren`, to a name
+that is not tracked): moving the tracked file keeps the refinement - same lines, no report -/
+theorem rename_inv :
+    ∀ (s : BSt) (w : World) (src name : Nat) (f : List Fu.Node) (h : Inv s w) (hf : getFile s src = some f)
+    (hne : src ≠ name) (hfree : wGet w name = none),
+    Inv (renameFile s src name f) (wSet (wDrop w src) name (Fu.flat f)) :=
+  @Bd.rename_inv
+
 /-- the initial state satisfies the invariant -/
 theorem inv_init : ∀ (pn : Nat), Inv ⟨pn, 0, [], []⟩ [] := @Bd.inv_init
 
